@@ -189,6 +189,40 @@ def run(ctx):
     for D in (2, 3) if th else (2,):
         for padding, stride, rd, ld, flags in option_box(D, (4, 5) if D == 2 else (3, 4, 3)):
             jobs.append((ctx.repo, D, sigs[1][0], sigs[1][1], "auto", padding, stride, rd, ld, flags, (), False))
+    # pseudo-random (deterministic) layers: signature (any key order, unequal channels) x bias x any option set
+    from .convspec import _pick, norm_opts
+
+    pool = [(0, 0), (0, 1), (1, 0), (1, 1), (2, 0), (2, 1)]
+    n_s = 0
+    i = 0
+    while n_s < (150 if th else 16) and i < 5000:
+        i += 1
+        D = 2 if _pick((0, 1, 2, 3), "C11", i, "D") else 3
+        N = (3, 4) if D == 2 else (3, 2, 3)
+        ins = list(dict.fromkeys(_pick(pool[: 6 if D == 2 else 4], "C11", i, "in", j) for j in range(_pick((1, 2, 2, 3), "C11", i, "nin"))))
+        outs = list(dict.fromkeys(_pick(pool[: 6 if D == 2 else 4], "C11", i, "out", j) for j in range(_pick((1, 2, 3, 3), "C11", i, "nout"))))
+        if max(a[0] for a in ins) + max(b[0] for b in outs) > (3 if D == 2 else 2) or (D == 3 and len(ins) * len(outs) > 2):
+            continue
+        isig = tuple((t, _pick((1, 2, 3), "C11", i, "ci", t)) for t in ins)
+        osig = tuple((t, _pick((1, 2, 3), "C11", i, "co", t)) for t in outs)
+        bias = _pick(BIAS, "C11", i, "bias")
+        pk = _pick(("TORUS", "SAME", "VALID", None, "int", "sym", "asym"), "C11", i, "pad")
+        padding = _pick((0, 1, 2), "C11", i, "pi") if pk == "int" else [[_pick((0, 1, 2), "C11", i, "ps", a)] * 2 for a in range(D)] if pk == "sym" else [[_pick((0, 1, 2), "C11", i, "pl", a), _pick((0, 1, 2), "C11", i, "ph", a)] for a in range(D)] if pk == "asym" else pk
+        stride = _pick((1, 1, 2, "a"), "C11", i, "st")
+        stride = tuple(_pick((1, 2), "C11", i, "sta", a) for a in range(D)) if stride == "a" else stride
+        rd = _pick((1, 1, 2, 3, "a"), "C11", i, "rd")
+        rd = tuple(_pick((1, 2), "C11", i, "rda", a) for a in range(D)) if rd == "a" else rd
+        ld = _pick((None, None, None, 2, "a"), "C11", i, "ld")
+        ld = [_pick((1, 2), "C11", i, "lda", a) for a in range(D)] if ld == "a" else ([ld] * D if ld else None)
+        flags = tuple(_pick((True, False), "C11", i, "fl", a) for a in range(D))
+        if ld is not None and padding in ("TORUS", None) and any(flags):
+            continue
+        _, st, pads, ldn, rdn = norm_opts(D, flags, stride, padding, ld, rd, (3,) * D)
+        if any((N[a] - 1) * ldn[a] + 1 + pads[a][1] + pads[a][2] - ((3 - 1) * rdn[a] + 1) < 0 for a in range(D)):
+            continue
+        missing = ((0, 1),) if _pick((0, 0, 1), "C11", i, "miss") and any(((s_[0] + t_[0], (s_[1] + t_[1]) % 2) == (0, 1)) for s_ in ins for t_ in outs) else ()
+        n_s += 1
+        jobs.append((ctx.repo, D, isig, osig, bias, padding, stride, rd, ld, flags, missing, "roundtrip" if i % 5 == 0 else False))
     by = {}
     for job, r in ctx.pairs(worker, jobs):
         cfg = r["cfg"]
